@@ -20,6 +20,7 @@ def gen_fmt_text(r):
             w = "".join(r.choice(ALPH) for _ in range(r.randint(1, 7)))
             if r.random() < 0.15: w += r.choice(CODES)
             if r.random() < 0.1: w = r.choice(CODES) + w
+            if r.random() < 0.04: w = w + r.choice(["}", "}}", "{x", "}{"])       # unbalanced braces
             toks.append(("w", w))
         elif x < 0.8: toks.append(("w", r.choice(CODES)))
         else: toks.append(("b", r.choice(BREAKS)))
@@ -63,7 +64,7 @@ def width(word, widths):
 
 def check_format(text, mx, ov, nl, widths, out):
     """W1 (content), W2 (width), W3 (greedy), W4 (break discipline); None if all hold."""
-    tin = spec_tokens(text)
+    tin = spec_tokens(text.replace("\n", " "))      # a newline in the source text is a space
     lines = out.split("\n"); tout = []
     for li, ln in enumerate(lines):
         lt = spec_tokens(ln)
@@ -156,24 +157,37 @@ def oracle_C07(case, res):
 
 # ---------------- C17 ----------------
 def gen_C17(rnd, n, tier):
-    """Histories: each input is compiled several times, interleaved with the others."""
+    """Histories: each input is compiled several times, interleaved with the others, in one
+    process. Besides whole generated files the stream holds inputs chosen to expose process state
+    and map-order dependence: the same format() text under different -f / -l settings sharing one
+    font config file, several simultaneous name clashes (which one is reported?), an unknown font
+    with many fonts configured."""
     base = []
     for i in range(n):
-        x = rnd.random()
-        if x < 0.7: c = top_case(rnd, tier, {"optimize": rnd.random() < 0.5})
-        elif x < 0.85:
-            src = 'script S {\n  msgbox(format("aa bb", "NOPE"))\n}\n'
-            cfg = repo_cfg(); c = Case(compile_line(cfg, src), src, cfg, {})
-        else:
-            src = 'text T { poryswitch(V) { A: "x" } }\n'
-            cfg = base_cfg(switches={"V": "Q", "W": "1"}); c = Case(compile_line(cfg, src), src, cfg, {})
-        base.append(c)
+        base.append((top_case(rnd, tier, {"optimize": rnd.random() < 0.5}), 1))
+    fmt_src = 'text T { format("aaaa aaa aa aaa aa aaa aa aaa aa aaa aa aaa aaaa aa aaa aa aaa aa aaa aa aaa") }\nscript S { msgbox(format("bb bbb bb bbb bbbb bb bbb bb bbb bbbb bb bbb bb bbb bbbb")) }\n'
+    for deffont in ["", "1_latin_frlg", "", "1_latin_rse"]:
+        for maxlen in [0, 120]:
+            cfg = repo_cfg(deffont=deffont, maxlen=maxlen)
+            base.append((Case(compile_line(cfg, fmt_src), fmt_src, cfg, {}), 2))
+    clash = 'text Foo { "first foo$" }\ntext Bar { "first bar$" }\ntext Baz { "z$" }\ntext Foo { "second foo$" }\ntext Bar { "second bar$" }\ntext Baz { "zz$" }\n'
+    base.append((Case(compile_line(base_cfg(), clash), clash, base_cfg(), {}), 8))
+    mclash = "movement A { walk_up }\nmovement B { walk_up }\nmovement C { walk_up }\nmovement A { walk_down }\nmovement B { walk_down }\nmovement C { walk_down }\n"
+    base.append((Case(compile_line(base_cfg(), mclash), mclash, base_cfg(), {}), 8))
+    src = 'script S {\n  msgbox(format("aa bb", "NOPE"))\n}\n'
+    base.append((Case(compile_line(repo_cfg(), src), src, repo_cfg(), {}), 6))
+    many = Cfg(fonts={("F%d" % k): {"widths": {}} for k in range(8)})
+    base.append((Case(compile_line(many, src), src, many, {}), 6))
+    src2 = 'text T { poryswitch(V) { A: "x" } }\nscript S { poryswitch(W) { Q: a } }\n'
+    c2 = base_cfg(switches={"V": "Q", "W": "1", "X": "2", "Y": "3"})
+    base.append((Case(compile_line(c2, src2), src2, c2, {}), 4))
     reps = 4 if tier == "quick" else 12
     seq = []
-    for k in range(reps):
-        order = list(range(len(base))); rnd.shuffle(order)
+    for k in range(reps * 8):
+        order = [j for j in range(len(base)) if k < reps * base[j][1]]
+        rnd.shuffle(order)
         for j in order:
-            c = base[j]; seq.append(Case(c.line, c.src, c.cfg, {"orig": j, "rep": k}))
+            c = base[j][0]; seq.append(Case(c.line, c.src, c.cfg, {"orig": j, "rep": k}))
     return seq
 
 def oracle_C17_all(cases, rawresults):
@@ -366,7 +380,9 @@ def plain_body(rnd, depth=2):
 def gen_C20(rnd, n, tier):
     out = []
     kinds = ["break_outside", "continue_outside", "continue_not_last", "dup_case", "two_defaults", "const_redef",
-             "text_clash", "movement_clash", "label_clash", "label_text_clash", "continue_in_switch_only"]
+             "text_clash", "movement_clash", "label_clash", "label_text_clash", "continue_in_switch_only",
+             "continue_after_loop_in_switch", "break_after_closed_loop", "continue_after_closed_loop",
+             "dup_case_const", "dup_case_const_rev", "dup_case_multi"]
     for i in range(n):
         kind = kinds[i % len(kinds)]
         pre = p_block(plain_body(rnd), 1)      # statements before, inside script S
@@ -387,6 +403,23 @@ def gen_C20(rnd, n, tier):
         elif kind == "continue_in_switch_only":
             body = bl + ["  switch (var(V)) {", "    case 1:", "      if (flag(A)) {", "        continue", "      }", "  }"]; line = len(head) + 1 + len(bl) + 4
             src = assemble(head, body)
+        elif kind == "continue_after_loop_in_switch":
+            inner = rnd.choice([["      while (flag(L)) {", "        foo", "      }"], ["      do {", "        foo", "      } while (flag(L))"]])
+            body = bl + ["  switch (var(V)) {", "    case 1:"] + inner + ["      continue", "  }"]; line = len(head) + 1 + len(bl) + 2 + len(inner) + 1
+            src = assemble(head, body)
+        elif kind in ("break_after_closed_loop", "continue_after_closed_loop"):
+            closed = rnd.choice([["  while (flag(L)) {", "    foo", "  }"], ["  switch (var(W)) {", "    case 1: a", "  }"],
+                                 ["  do {", "    if (flag(Q)) {", "      break", "    }", "  } while (flag(L))"]])
+            kw = "break" if kind.startswith("break") else "continue"
+            body = bl + closed + ["  if (flag(A)) {", "    " + kw, "  }"]; line = len(head) + 1 + len(bl) + len(closed) + 2
+            src = assemble(head, body)
+        elif kind in ("dup_case_const", "dup_case_const_rev", "dup_case_multi"):
+            if kind == "dup_case_const": c1, c2 = "K_YES", "K_YES"
+            elif kind == "dup_case_const_rev": c1, c2 = "1", "K_YES"
+            else: c1, c2 = "FLAG_A | FLAG_B", "FLAG_A | FLAG_B"
+            body = bl + ["  switch (var(V)) {", "    case %s: a" % c1, "    case 2:", "    case %s: b" % c2, "  }"]
+            lines = ["const K_YES = 1"] + head + ["script S {"] + body + ["}"]
+            src = "\n".join(lines) + "\n"; line = 1 + len(head) + 1 + len(bl) + 4
         elif kind == "continue_not_last":
             loop = rnd.choice(["while (flag(A)) {", "do {", "while {"])
             close = "  } while (flag(B))" if loop == "do {" else "  }"
